@@ -14,6 +14,7 @@ import os
 from fractions import Fraction
 
 import numpy as np
+from . import fld
 
 ABS_TOL = 1e-9  # relative to the magnitude of the operands / expected value (values are O(1..1e5) integers)
 
@@ -266,6 +267,12 @@ class Machine:
         a = self.objs[i - 1]
         b = self.objs[j - 1] if j else None
         am = mregs[i - 1]
+        self._nexec = getattr(self, "_nexec", 0) + 1
+        if (self._nexec + len(self.objs) + i + j + len(str(x))) % 2 == 0:
+            # the operands' values arrive through in-place writes with warm-up reads in between (fld.rewrite_in_place)
+            for o in (a, b):
+                if isinstance(o, df.Field):
+                    fld.rewrite_in_place(o)
         if op == "neg":
             return -a
         if op == "pos":
